@@ -436,7 +436,12 @@ func (in *Interp) isASCIISpaceOrCut(x value, what string) bool {
 	if t, ok := x.(*Term); ok {
 		if _, isc := in.tab.cval(t); !isc {
 			if !in.truth(in.simpBool(in.tab.Ult(t, in.tab.Const(8, 0x80)))) {
-				panic(cut("%s-symbolic-nonascii", what))
+				// multi-byte Unicode spaces start with C2, E1, E2 or E3; any other non-ASCII byte
+				// (lead or continuation) cannot begin a space
+				if in.truth(byteInSet(in, x, "\xc2\xe1\xe2\xe3")) {
+					panic(cut("%s-symbolic-nonascii", what))
+				}
+				return false
 			}
 		}
 	}
